@@ -13,7 +13,7 @@ ACKS = ("PUBACK", "PUBREC", "PUBCOMP", "SUBACK", "UNSUBACK")
 FLAVOURS = {
     "mixed": dict(pub=10, sub=4, unsub=3, ack=14, dupack=2, stray=2, early=1, cross=2, inpub=5, inburst=1, inrel=4,
                   tick=5, adv=3, setwin=2, settimeout=1, setbw=1, lose=2, disconnect=1, pingresp=1,
-                  reconnect=6, stale=1, dupconnack=1),
+                  reconnect=6, stale=1, dupconnack=1, ping=1),
     "pubflow": dict(pub=16, ack=16, dupack=3, stray=2, early=2, cross=2, tick=6, adv=2, setwin=3, lose=1,
                     reconnect=5, settimeout=1, setbw=1),
     "subflow": dict(sub=8, unsub=7, ack=10, dupack=2, stray=2, cross=2, inpub=8, inburst=2, inrel=7, tick=4, adv=2,
@@ -21,7 +21,7 @@ FLAVOURS = {
     "lossy": dict(pub=10, sub=3, unsub=3, ack=8, inpub=3, inrel=2, tick=3, adv=1, setwin=1, lose=6,
                   disconnect=2, reconnect=10, stale=2),
     "timers": dict(pub=6, sub=2, unsub=2, ack=4, tick=14, adv=6, settimeout=2, setbw=2, lose=1,
-                   reconnect=4, pingresp=4, inpub=1),
+                   reconnect=4, pingresp=4, inpub=1, ping=2),
 }
 
 
@@ -130,6 +130,10 @@ class Walker(object):
             return ("disconnect", a)
         if k == "pingresp":
             return ("pingresp", a)
+        if k == "ping":
+            if c.connack_ok and c.keepalive:      # (with keepalive 0 a ping()'s deadline is immediate: outside the statements)
+                return ("ping", a)
+            return ("tick",)
         if k == "dupconnack":
             return ("connack", a, r.choice([0, 0, 2]), r.random() < 0.5)
         if k == "reconnect":
@@ -169,7 +173,7 @@ def random_cfg(rng, profile=None, model=None):
                jitter=rng.choice(["const", "const", "uniform", "adversarial"]),
                jitter_value=rng.choice([0.0, 0.5, 0.999]),
                seed=rng.randrange(1 << 30),
-               ondisc=rng.random() < 0.8,
+               ondisc=("alt" if rng.random() < 0.15 else True) if rng.random() < 0.8 else False,
                onconn=rng.random() < 0.3,
                re_pub_on_fail=rng.random() < 0.15,
                re_pub_on_connmade=rng.random() < 0.1,
